@@ -572,3 +572,82 @@ def isotxs_scatter_rows_are_stored_banded_and_reversed(gamiso: bool, x0: float, 
     m = [[w24, w25], [w26, w27]]  # m[sink][source]
     assert eq(band[0], m[0][1]) and eq(band[1], m[0][0]), "sink group 1: from group 2 (up-scatter), then in-group"
     assert eq(band[2], m[1][1]) and eq(band[3], m[1][0]), "sink group 2: in-group, then from group 1 (down-scatter)"
+
+
+# ----------------------------------------------------------------------------- ISOTXS: fields of the principal cross section record
+class FieldProbe:
+    """stand-in for a binary record in writing mode (with-protocol, rwMatrix): notes the shape of every block"""
+
+    def __init__(self):
+        self.trace = []
+
+    def __enter__(self):
+        return self
+
+    def __exit__(self, a, b, c):
+        return None
+
+    def rwMatrix(self, contents, *shape):
+        self.trace.append((contents, shape))
+        return contents
+
+
+class RecordSource:
+    """stand-in for IsotxsIO as seen by _rw5DRecord: createRecord() hands out the one FieldProbe"""
+
+    def createRecord(self):
+        return self.rec
+
+
+class MicroStub:
+    """stand-in for the XSCollection of the isotope: every block is a name (the probe never looks inside);
+    getDefaultXs as the real one: the block an isotope does not have"""
+
+    def getDefaultXs(self, numGroups):
+        return "default"
+
+
+@lemma(gen={"ng": (1, 4), "ltrn": (1, 2), "ltot": (1, 2), "ifis": (0, 1), "ichi": (0, 2), "ichist": (0, 1), "ialf": (0, 1), "inp": (0, 1),
+            "in2n": (0, 1), "ind": (0, 1), "int_": (0, 1), "istrpd": (0, 2)})
+def isotxs_principal_record_fields_follow_the_flags(ng: int, ltrn: int, ltot: int, ifis: int, ichi: int, ichist: int, ialf: int, inp: int,
+                                                    in2n: int, ind: int, int_: int, istrpd: int):
+    """fields of the PRINCIPAL CROSS SECTIONS (5D) record for EVERY flag combination of the isotope control record (all
+    symbolic, nothing enumerated): transport (LTRN x groups), total (LTOT x groups), n-gamma; fission and nu iff IFIS > 0;
+    chi iff ICHI = 1; n-alpha, n-p, n-2n, n-d, n-t each iff its flag is set; the directional transport block (ISTRPD x
+    groups) iff ISTRPD > 0 - in this order.  A fissile isotope with neither its own nor a file-wide chi vector is refused
+    (OSError).  Real _rw5DRecord; stand-ins: FieldProbe, RecordSource, MicroStub."""
+    assume(ng >= 1 and ltrn >= 1 and ltot >= 1 and ifis >= 0 and ichi >= 0 and ichist >= 0)
+    assume(ialf >= 0 and inp >= 0 and in2n >= 0 and ind >= 0 and int_ >= 0 and istrpd >= 0)
+    meta = NuclideMetadata()
+    flags = {"ltrn": ltrn, "ltot": ltot, "fisFlag": ifis, "chiFlag": ichi, "nalph": ialf, "np": inp, "n2n": in2n, "nd": ind, "nt": int_, "strpd": istrpd}
+    for key in flags:
+        meta[key] = flags[key]
+    mic = new(MicroStub, transport="transport", total="total", nGamma="nGamma", fission="fission", neutronsPerFission="nu", chi="chi",
+              nalph="nalph", np="np", n2n="n2n", nd="nd", nt="nt", strpd="strpd")
+    rec = FieldProbe()
+    nuc = new(NuclideStub, micros=mic, trace=[])
+    io = new(IsotxsNuclideIO, _nuclide=nuc, _metadata=meta, _isotxsIO=new(RecordSource, rec=rec), _numGroups=ng, _fileWideChiFlag=ichist,
+             _fileWideChi="file-wide chi")
+    try:
+        io._rw5DRecord()
+        refused = False
+    except OSError:
+        refused = True
+    assert refused == (ifis > 0 and ichi != 1 and ichist != 1), "refused iff fissile without any chi vector"
+    expected = [("transport", (ltrn, ng)), ("total", (ltot, ng)), ("nGamma", (ng,))]
+    if ifis > 0:
+        expected = expected + [("fission", (ng,)), ("nu", (ng,))]
+    if ichi == 1:
+        expected.append(("chi", (ng,)))
+    if not refused:
+        for name, flag in [("nalph", ialf), ("np", inp), ("n2n", in2n), ("nd", ind), ("nt", int_)]:
+            if flag > 0:
+                expected.append((name, (ng,)))
+        if istrpd > 0:
+            expected.append(("strpd", (istrpd, ng)))
+        # what the isotope ends up with: its own blocks where the flags say so, the default (zeros) elsewhere
+        assert mic.fission == ("fission" if ifis > 0 else "default") and mic.neutronsPerFission == ("nu" if ifis > 0 else "default")
+        assert mic.chi == ("chi" if ichi == 1 else ("file-wide chi" if ifis > 0 else "default"))
+        assert mic.nalph == ("nalph" if ialf > 0 else "default") and mic.nt == ("nt" if int_ > 0 else "default")
+        assert mic.strpd == ("strpd" if istrpd > 0 else "default")
+    assert rec.trace == expected, "fields exactly as the flags announce, in file order"
